@@ -64,12 +64,6 @@ Definition c15_delete {A} (idx : list nat) (l : list A) : list A := c15_delete_f
 (* arr[idx] *)
 Definition c15_gather {A} (d : A) (l : list A) (idx : list nat) : list A := map (fun i => nth i l d) idx.
 
-(* np.where(~np.isnan(shells).any(axis=1))[0] on an (n, m, 2) array: the reduction leaves an
-   (n, 2) array (x column, y column), so row i is listed once per NaN-free column *)
-Definition c15_where2 (flags : list (bool * bool)) : list nat :=
-  flat_map (fun p => (if negb (fst (snd p)) then [fst p] else []) ++ (if negb (snd (snd p)) then [fst p] else []))
-           (combine (seq 0 (length flags)) flags).
-
 (* np.where(~np.isnan(shells).any(axis=(1, 2)))[0] *)
 Definition c15_where_nonan (flags : list (bool * bool)) : list nat :=
   c15_where (map (fun p => negb (fst p || snd p)) flags).
@@ -105,31 +99,18 @@ Definition c15_poly (per : c15_periodic) (n : nat) (am : list nat) (nan : option
       end
   | C15Split =>
       let c2o := c15_split_map pieces in
-      let dat := c15_gather 0 values c2o in
-      {| o_faces := c2o;
-         o_data := match non_nan with Some nn => c15_gather 0 dat nn | None => dat end;
-         o_c2o := c2o |}
+      {| o_faces := c2o; o_data := c15_gather 0 values c2o; o_c2o := c2o |}
   | C15Ignore =>
-      {| o_faces := seq 0 n;
-         (* the NaN table (indices into the antimeridian-free array) is applied to the full data *)
-         o_data := match non_nan with Some nn => c15_gather 0 values nn | None => values end;
-         o_c2o := [] |}
-  end.
-
-(* repaired: the NaN table is only applied where the polygons were filtered with it *)
-Definition c15_poly_fixed (per : c15_periodic) (n : nat) (am : list nat) (nan : option (list (bool * bool)))
-           (pieces : list nat) (values : list Z) : c15_out :=
-  match per with
-  | C15Ignore => {| o_faces := seq 0 n; o_data := values; o_c2o := [] |}
-  | _ => c15_poly per n am nan pieces values
+      (* the NaN table is applied to the data only where the polygons were filtered with it (exclude) *)
+      {| o_faces := seq 0 n; o_data := values; o_c2o := [] |}
   end.
 
 (* _grid_to_polygon_geodataframe + Grid.to_geodataframe + UxDataArray.to_geodataframe.
    (split with a projection raises before anything is built: not modelled here) *)
-Definition c15_gdf_gen (fixed : bool) (per : c15_periodic) (n : nat) (am : list nat)
+Definition c15_gdf (per : c15_periodic) (n : nat) (am : list nat)
            (nan : option (list (bool * bool))) (values : list Z) : c15_out :=
   let non_nan := match nan with
-                 | Some fl => Some ((if fixed then c15_where_nonan else c15_where2) (c15_delete am fl))
+                 | Some fl => Some (c15_where_nonan (c15_delete am fl))
                  | None => None
                  end in
   match per with
@@ -141,15 +122,13 @@ Definition c15_gdf_gen (fixed : bool) (per : c15_periodic) (n : nat) (am : list 
       | None => {| o_faces := kept; o_data := dat; o_c2o := [] |}
       end
   | _ =>
-      (* split / ignore: one row per face; the NaN table is applied to rows and data alike *)
+      (* split / ignore: one row per face; the NaN table (indices into the antimeridian-free array)
+         is applied to rows and data alike *)
       match non_nan with
       | Some nn => {| o_faces := c15_gather 0%nat (seq 0 n) nn; o_data := c15_gather 0 values nn; o_c2o := [] |}
       | None => {| o_faces := seq 0 n; o_data := values; o_c2o := [] |}
       end
   end.
-
-Definition c15_gdf := c15_gdf_gen false.
-Definition c15_gdf_fixed := c15_gdf_gen true.
 
 (* _get_polygons (lines): exclude / ignore as for the PolyCollection, split one polygon per face *)
 Definition c15_line (per : c15_periodic) (n : nat) (am : list nat) (nan : option (list (bool * bool))) : list nat :=
